@@ -51,10 +51,21 @@ func c10Stream(r *fw.Rand, mtu int) (calls []c10Call, expect [][]byte, pairs map
 	var kinds []byte
 	total := 0
 	needSlice := false
+	many := r.Chance(1, 60) // access units with very many small NAL units (slices, SEI): any fixed-size table inside overflows
 	for cidx := 0; cidx < ncalls; cidx++ {
 		n := r.Range(1, 6)
+		if many {
+			n = r.Pick(31, 32, 33, 34, 35, 63, 64, 65, 66, 67, 100, 129, 255, 256, 257, 300)
+		}
 		for k := 0; k < n; k++ {
 			sel := r.Intn(12)
+			if many && sel >= 4 {
+				t := c10SliceTypes[r.Intn(len(c10SliceTypes))]
+				all = append(all, gen.H264Unit(r, t, r.Pick(2, 3, 4, 5, r.Range(2, 12), r.Range(2, mtu+3))))
+				kinds = append(kinds, 'u')
+				needSlice = false
+				continue
+			}
 			if needSlice && (sel == 2 || sel == 3) {
 				sel = 5 // a parameter-set pair is followed by an emitted unit before the next pair
 			}
